@@ -402,10 +402,14 @@ SCENARIOS_EXTRA["latin1"] = (
     lambda r: ("a file that is not valid UTF-8 was rewritten" if clireplay.changed(r, "legacy.lua", True) else
                "exit status is %d, not 2, although a file could not be read" % r["rc"] if r["rc"] != 2 else
                "other file not formatted" if r["after"]["a.lua"][0].decode() != clireplay.FORMATTED else None))
+SCENARIOS_EXTRA["byte-order-mark"] = (
+    {"bom.lua": "\ufeff" + clireplay.FORMATTED, "u.lua": clireplay.UNFORMATTED}, ["bom.lua", "u.lua"],
+    lambda r: ("a file that starts with a byte order mark and is otherwise formatted (or is rejected) was rewritten/touched" if clireplay.changed(r, "bom.lua") else
+               "other file not formatted" if r["after"]["u.lua"][0].decode() != clireplay.FORMATTED else None))
 SCENARIOS.update(SCENARIOS_EXTRA)
 KIND2SCEN["early-return"] = ["dangling-symlink", "dir", "broken"]
 for _k in ("unformatted-or-broken", "others", "any", "broken", "formatted"):
-    KIND2SCEN[_k] = KIND2SCEN[_k] + ["latin1"]
+    KIND2SCEN[_k] = KIND2SCEN[_k] + ["latin1", "byte-order-mark"]
 KIND2SCEN["crash"] = ["crash"]
 KIND2SCEN["any"] = KIND2SCEN["any"] + ["crash"]
 
